@@ -141,6 +141,42 @@ fn restart(w: &mut World, op: &Value) -> R<Value> {
             seen.entry(b).or_insert(ci + 1);
         }
     }
+    // ... and neither must concurrent threads of this process (per-thread generators seeded alike)
+    let nthreads = 4usize;
+    let handles: Vec<_> = (0..nthreads)
+        .map(|t| {
+            std::thread::spawn(move || {
+                let mut p = crate::prng::Prng::new(0x7112_EAD5 + t as u64);
+                let w = crate::gen_c14::observe_world(&mut p, &crate::gen_c14::SITES, per_site);
+                (w.observed, w.violations)
+            })
+        })
+        .collect();
+    let mut tdup: Vec<String> = vec![];
+    let mut tseen: BTreeMap<Vec<u8>, usize> = BTreeMap::new();
+    let mut ttotal = 0usize;
+    for (ti, h) in handles.into_iter().enumerate() {
+        let (obs, viols) = h.join().map_err(|_| "observer thread panicked".to_string())?;
+        let step = w.history.len();
+        for mut v in viols {
+            v.step = step;
+            w.violations.push(v);
+        }
+        ttotal += obs.len();
+        for (_, b) in obs {
+            if let Some(prev) = tseen.get(&b) {
+                if *prev != ti {
+                    tdup.push(format!("{} (threads {} and {})", hex::encode(&b), prev, ti));
+                }
+            }
+            tseen.entry(b).or_insert(ti);
+        }
+    }
+    let tkey = json!({"entry": "threads", "class": "scalar-repeats-across-threads", "outcome": "Ok"});
+    w.check("C14", "M3-threads-fresh", tdup.is_empty() && ttotal > 0, fnv(&[b"c14threads"]), tkey, || {
+        format!("{} scalars from {nthreads} concurrent threads: repeated across threads: {}", ttotal, tdup.iter().take(4).cloned().collect::<Vec<_>>().join(", "))
+    });
+    w.bump_by("probe.c14.m3-thread-scalars", ttotal as u64);
     let case = fnv(&[b"c14restart"]);
     let key = json!({"entry": "process-restart", "class": "scalar-repeats-across-processes", "outcome": "Ok"});
     w.check("C14", "M3-restart-fresh", dup.is_empty() && total > 0, case, key, || {
